@@ -532,6 +532,10 @@ func (g *G) maybeCarrier(label string) string {
 	if g.P.ForeignRawText && g.chance(12, label+"mx") {
 		return " " + g.foreignRawText() + " "
 	}
+	if g.P.ForeignRawText && g.chance(6, label+"fp") {
+		// an element of the page with the distiller's own marker class, inside content that is copied as a whole
+		return ` <div class="embed-placeholder" data-type="youtube" data-id="` + g.tokp("fg") + `">` + g.words(2) + "</div> "
+	}
 	if g.P.Carriers > 0 && g.chance(g.P.Carriers, label) {
 		return " " + g.carrier() + " "
 	}
@@ -637,6 +641,11 @@ func (g *G) picture() string {
 	}
 	n := g.intn(1, 2, "pics")
 	for i := 0; i < n; i++ {
+		if g.intn(0, 3, "picsrctype") == 0 {
+			// the usual WebP fallback markup: one URL, a type, no descriptor
+			b.WriteString(`<source srcset="` + g.url("srcset") + `" type="image/webp"` + g.at("source") + ">")
+			continue
+		}
 		b.WriteString(`<source srcset="` + g.srcset("srcset") + `" media="(min-width: 600px)"` + g.at("source") + ">")
 	}
 	if g.chance(80, "picimg") {
@@ -984,6 +993,9 @@ func (g *G) block(kind string) string {
 	case "jsmedia":
 		// media as the only child of a javascript: link (lightbox, gallery)
 		return `<a href="javascript:` + g.pick("jsmk", "void(0)", "openLightbox()", ";") + `">` + g.pick("jsmm", strings.TrimSpace(g.img()), strings.TrimSpace(g.figure()), strings.TrimSpace(g.video())) + "</a>\n"
+	case "fakeplaceholder":
+		// an element of the page that carries the distiller's own marker class (a page that was distilled before)
+		return `<div class="embed-placeholder" data-type="` + g.pick("fpt", "youtube", "vimeo", "twitter") + `" data-id="` + g.tokp("fg") + `"><p>` + g.words(g.intn(5, 40, "fpw")) + "</p></div>\n"
 	case "linkwrapped":
 		// a block whose only content is a link around one inline element
 		tag := g.pick("lwtag", "h2", "h3", "p", "div")
